@@ -19,7 +19,9 @@ LEVEL_TEXT = (
     "every exact evolution integral is compared with mpmath quadrature of its defining integrand, every "
     "expanded integral with the termwise integral of the Taylor-truncated integrand, and roots() with "
     "mp.polyroots, on the complete product of 8 beta-coefficient sets (nf 3-6 incl. the complex-Delta "
-    "case nf=6, 4 synthetic positive sets) and a 5x5 (thorough 8x8) lattice of coupling pairs in both orders"
+    "case nf=6, 4 synthetic positive sets) and a 5x5 (thorough 8x8) lattice of coupling pairs in both orders; every "
+    "deviation is bounded twice: by the global tolerance and relative to the natural size |a1^(k-1) - a0^(k-1)|/((k-1) beta0) "
+    "of the individual integral j^(k,m) (so that the high-k integrals are decided at small couplings too)"
 )
 LEVEL_NOTE = (
     "decides the property on the lattice only; beta coefficients are inputs (typed from the literature "
@@ -63,6 +65,14 @@ ATOL_REL = 1e-10  # x |a1 - a0| / beta0: rounding of the cancelling closed forms
 ATOL_EXPANDED = 1e-13  # x |a1 - a0| / beta0 for the (polynomial + log) expanded forms
 EQ_TOL = 1e-12  # x a0 / beta0 for an empty interval
 ROOT_TOL = 1e-12
+# second assertion, relative to the natural size of each integral, S_k = |int a^(k-2) da| / beta0: what remains is the
+# rounding of the cancelling closed forms, which is absolute (~ eps x size of the partial-fraction terms) and therefore grows
+# like 1/a per unit of k relative to S_k.  Measured maxima of dev / S_k on the thorough lattice (a >= 0.001):
+#   physical sets (nf 3-6): k=1 1.7e-15, k=2 4.7e-14, k=3 1.6e-11, k=4 1.1e-10
+#   synthetic sets:         k=1 2.3e-15, k=2 7.5e-13, k=3 7.6e-10, k=4 5.6e-7 (syn-3real, 0.001 -> 0.003)
+#   expanded forms (all sets, all k): 4e-16
+KTOL_EXACT = {"phys": {1: 1e-13, 2: 1e-12, 3: 1e-9, 4: 5e-9}, "syn": {1: 1e-13, 2: 1e-11, 3: 1e-8, 4: 1e-5}}
+KTOL_EXPANDED = 1e-14
 
 
 def _refs(beta0, bl, a0, a1):
@@ -103,11 +113,18 @@ def _refs(beta0, bl, a0, a1):
         def scale(k):
             return abs(A1 - A0) / B0
 
+        def kscale(k):
+            # natural size of j^(k,m): |int a^(k-2) da| / beta0
+            if k == 1:
+                return abs(mp.log(A1 / A0)) / B0
+            return abs(A1 ** (k - 1) - A0 ** (k - 1)) / ((k - 1) * B0)
+
         for m in (2, 3, 4, 5):
             for k in range(1, m):
                 out[("exact", k, m)] = exact(k, m)
                 out[("expanded", k, m)] = expanded(k, m)
                 out[("scale", k, m)] = scale(k)
+                out[("kscale", k, m)] = kscale(k)
         out["roots"] = [complex(r) for r in mp.polyroots([b[3], b[2], b[1], b[0]], maxsteps=200, extraprec=200)]
         # positivity of the truncated beta polynomials on the interval (no pole inside)
         lo, hi = min(a0, a1), max(a0, a1)
@@ -164,6 +181,23 @@ def evaluate(case):
         )
         if not dev <= tol:
             res.fail(sig, f"{where}: got {val!r}, reference ({kind} j^({k},{m})) {ref.real!r}, |diff|={dev:.3e} > tol={tol:.3e}")
+            return
+        # per-k absolute scale: the absolute term above is sized like the k = 2 integral for every k and is
+        # 1/a^(k-2) too generous for the high-k integrals at small couplings
+        ks = abs(R[("kscale", k, m)])
+        grp = "phys" if name.startswith("nf") else "syn"
+        ktol = KTOL_EXACT[grp][k] if kind == "exact" else KTOL_EXPANDED
+        kk = f"max_kscale_dev_{kind}_{grp}_k{k}"
+        info[kk] = max(info.get(kk, 0.0), dev / ks)
+        kk = f"max_kscale_dev_over_tol_{kind}_{grp}"
+        info[kk] = max(info.get(kk, 0.0), dev / ks / ktol)
+        if not dev <= ktol * ks:
+            res.fail(
+                sig + "/k-scale",
+                f"{where}: got {val!r}, reference ({kind} j^({k},{m})) {ref.real!r}, |diff|={dev:.3e} > {ktol} x "
+                + (f"|a1^{k-1} - a0^{k-1}|/({k-1} beta0)" if k > 1 else "|ln a1/a0|/beta0")
+                + f" = {ktol * ks:.3e} (the size of this integral)",
+            )
 
     # ---- evolution_integrals (LO, NLO, NNLO)
     cmp("ei.j12", "exact", 1, 2, lambda: ei.j12(a1, a0, beta0))
@@ -243,10 +277,14 @@ def evaluate(case):
     return res
 
 
+def cases(tier):
+    lat = A_THOROUGH if tier == "thorough" else A_QUICK
+    return [{"b": n, "a0": a0, "a1": a1} for n in BSETS for a0 in lat for a1 in lat]
+
+
 def run(ctx):
     lat = A_THOROUGH if ctx.thorough() else A_QUICK
-    cases = [{"b": n, "a0": a0, "a1": a1} for n in BSETS for a0 in lat for a1 in lat]
-    ctx.run_cases(cases, evaluate)
+    ctx.run_cases(cases(ctx.tier), evaluate)
     ctx.rule = (
         f"complete product of {len(BSETS)} beta-coefficient sets (nf=3..6 from the literature formulae, nf=6 being the "
         f"complex-Delta branch, and 4 synthetic positive sets covering both branches of the cubic formula) x a0 x a1 on "
@@ -260,5 +298,10 @@ def run(ctx):
         "i.e. the integral through O(a^(m-2)) as the module docstring states",
         f"tolerance {RTOL} relative + {ATOL_REL} x |a1-a0|/beta0 absolute (rounding of the cancelling closed forms: measured "
         "<= 3e-12 |a1-a0|/beta0 on the synthetic sets, <= 5e-14 for nf 3-6; 1e-13 for the expanded forms); a0 = a1 must give 0 within 1e-12 a0/beta0; roots: relative residual 1e-12 and equality with mp.polyroots as a multiset (1e-10)",
+        "and, in addition, per integral |diff| <= c_k S_k with S_k = |a1^(k-1) - a0^(k-1)| / ((k-1) beta0) (k = 1: |ln a1/a0| / beta0) the size of "
+        f"j^(k,m) itself: exact forms c_k = {KTOL_EXACT['phys']} for nf 3-6 and {KTOL_EXACT['syn']} for the synthetic sets (the rounding of the "
+        "cancelling closed forms is absolute, so relative to S_k it grows like 1/a per unit of k: measured 1.1e-10 at k = 4 for nf 3-6, 5.6e-7 for the "
+        f"three-real-roots synthetic set at a = 0.001 -> 0.003), expanded forms {KTOL_EXPANDED} (measured 4e-16); per-k maxima are recorded as "
+        "max_kscale_dev_*",
         "beta coefficients are inputs; whether eko's beta table is right is C20",
     ]
